@@ -165,19 +165,45 @@ def line_rules(ctx, I):
         # list result: join with eol + trailing eol
         nlist += 1
         want = ['GEN1', 'GEN2'][:1 if hres == 'one' else 2] if hres else ['SENT1', 'SENT2'][:int(ares[-1])]
-        ok = isinstance(v, Cat) and len(v.parts) == 2 and all(not isinstance(x, str) for x in v.parts)
+        # flatten the result into tokens: item, separator, item, separator ...
+        toks = []
+        ok = isinstance(v, Cat)
         if ok:
-            j, tail = v.parts
-            ok = j[3] == 'join' and isinstance(j[1], TupleV)
+            for part in v.parts:
+                if isinstance(part, str):
+                    toks.append(('lit', part))
+                elif part[3] == 'join' and isinstance(part[1], TupleV):
+                    sep = part[1].elems[0]
+                    for i, it in enumerate(part[1].elems[1:]):
+                        if i:
+                            toks.append(('val', vkey(sep)))
+                        toks.append(('val', vkey(it)))
+                else:
+                    toks.append(('val', vkey(part[1])))
+            items = toks[0::2]
+            seps = toks[1::2]
+            got_items = [t[1][1] if t[0] == 'val' and isinstance(t[1], tuple) and t[1][0] == 'sstr' else t for t in items]
+            ok = got_items == want and len(seps) == len(items) and len(set(seps)) == 1
             if ok:
-                sep = j[1].elems[0]
-                items = [getattr(x, 'tag', None) for it in j[1].elems[1:] for x in live_alts(s, it)]
-                ok = items == want and vkey(sep) == vkey(tail[1])
-                eolv = live_alts(s, tail[1])
-                for x in eolv:
-                    good = (isinstance(x, Str) and x.s == '\n') or (isinstance(x, SStr) and (x.tag.startswith('eol(') or x.tag == 'SP._eol'))
-                    if not good:
-                        ok = False
+                sp = seps[0]
+                # which line ending is the file's: this line's own, else the one remembered from earlier lines, else LF
+                own = None
+                for k2, d2 in s.dom.items():
+                    if k2[0] == 'truthy' and isinstance(k2[1], tuple) and k2[1] == ('sstr', 'eol(LINE)'):
+                        own = (d2 == frozenset([True]))
+                remembered = p.dec(('null', 'SP', '_eol')) is False
+                if own:
+                    expect = ('val', ('sstr', 'eol(LINE)'))
+                elif remembered:
+                    expect = ('val', ('sstr', 'SP._eol'))
+                else:
+                    expect = ('lit', '\n')
+                if not own and p.dec(('null', 'SP', '_eol')) is None:
+                    # the line ending remembered from earlier lines was not even consulted
+                    expect = ('val', ('sstr', 'SP._eol'))
+                ok = (sp == expect)
+                if not ok:
+                    want = want + ['<each followed by %r, got %r>' % (expect, sp)]
         if not ok:
             ctx.report('C20.R3', where, '%s -> %s' % (tag, classify(v) if not isinstance(v, Cat) else v.parts),
                        'generated commands must each be emitted once, in order, every one followed by the file line ending')
